@@ -899,6 +899,13 @@ def u_task(ip: Interp, th: TaskTheory, std: StdRepo):
                                                     z3.Or(z3.And(fw0 != NONE, z3.Select(sh0["$fstate"].t, fw0) == F_PENDING, z3.Select(s.sh["$fstate"].t, fw0) == F_CANCELLED, s.sh["_must_cancel"].t == sh0["_must_cancel"].t),
                                                           s.sh["_must_cancel"].t))), P)
         ip.require(s, "cancel:touches-no-future-but-the-one-the-task-waits-on,at-most-once;the-waiter-and-the-continuation-stay-registered", z3.And(z3.BoolVal(len(wc) <= 1 and all(z3.eq(w[1], fw0) for w in wc) and n_conts(s) == 0), s.sh["_fut_waiter"].t == fw0), P)
+        # refinement of the pool theory's abstraction (PoolTheory.task_cancel): creq := _must_cancel or the waiter is cancelled
+        def alpha_creq(sh):
+            fw = sh["_fut_waiter"].t
+            return z3.Or(sh["_must_cancel"].t, z3.And(fw != NONE, z3.Select(sh["$fstate"].t, fw) == F_CANCELLED))
+
+        live = z3.Not(done0)
+        ip.require(s, "cancel:refines-PoolTheory.task_cancel:returns-`live`-and-creq'==(creq-or-live)-for-creq:=_must_cancel-or-waiter-cancelled", z3.And(ret == live, alpha_creq(s.sh) == z3.Or(alpha_creq(sh0), live)), P)
         x = z3.Const("x!c", Ref)
         ip.require(s, "cancel:every-other-future-is-left-alone", z3.ForAll([x], z3.Implies(x != fw0, z3.Select(s.sh["$fstate"].t, x) == z3.Select(sh0["$fstate"].t, x))), P)
 
